@@ -174,7 +174,7 @@ impl Value {
 			),
 			7 => Self::Object({
 				let len = usize::deserialize(read)?;
-				let mut v = Vec::with_capacity(len);
+				let mut v = Vec::with_capacity(crate::serialize::prealloc(len));
 				for _ in 0..len {
 					v.push((
 						Cow::Owned(String::deserialize(read)?),
